@@ -18,7 +18,7 @@ type countDef struct {
 }
 
 func (c *Ctx) specCtx(pkg *PkgInfo, st, old *State, vars map[string]Value) *Ctx {
-	n := &Ctx{x: c.x, st: st, fr: c.fr, spec: true, old: old, pkg: pkg, assuming: c.assuming}
+	n := &Ctx{x: c.x, st: st, fr: c.fr, spec: true, old: old, pkg: pkg, assuming: c.assuming, loopSpec: c.loopSpec}
 	n.vars = map[string]Value{}
 	for k, v := range vars {
 		n.vars[k] = v
@@ -240,6 +240,14 @@ func (c *Ctx) specCall(name string, e *ast.CallExpr) (Value, bool) {
 		return Scalar(Select(arr, k.S), boolT), true
 	case "clock":
 		return Scalar(x.ghostInt(c.st, clockKey), types.Typ[types.Int]), true
+	case "before":
+		// before(e), in a loop invariant: the value of e in the state just before the loop
+		if c.loopSpec == nil || c.fr == nil || c.fr.beforeLoop[c.loopSpec] == nil {
+			panic(engineErr("before(...) outside a loop invariant"))
+		}
+		n := *c
+		n.st = c.fr.beforeLoop[c.loopSpec]
+		return n.eval(e.Args[0]), true
 	case "fresh":
 		// fresh(v): v was allocated by this function.  Proved: v is one of the objects allocated on
 		// this path.  Assumed (at a call site): v differs from every reference the caller's state held
